@@ -117,6 +117,8 @@ def build_run(run_wd, cfg, tag, sources, flags, timeout=3600, keep=False):
 
     def go(exe):
         rc, out, err = core.sh([exe], timeout=timeout)
+        if rc == 86 and "trap-signal" in out:
+            return out          # the harness caught a trap inside the library and reported it as a V line
         if rc != 0:
             raise core.InfraError("sweep binary %s failed rc=%d: %s" % (exe, rc, err[-1500:]))
         return out
